@@ -241,6 +241,10 @@ def mc_main_execution(spec):
     matplotlib.use('Agg')
     import geophires_monte_carlo.MC_GeoPHIRES3 as MC
     from vf.engines import poolx
+    # requests the same process served earlier (a long-lived caller): run completely, results discarded
+    for prior in spec.get('before') or []:
+        mc_main_execution(dict(prior))
+        poolx.CURRENT.update({'outcomes': None, 'chunks': None, 'assignment_used': None})
     d = tempfile.mkdtemp(prefix='mc-')
     code, base_lines = BASES[spec['base']]
     base_in = os.path.join(d, 'base.txt')
